@@ -9,7 +9,7 @@ import (
 )
 
 func init() {
-	Explanations["C01"] = "Decides structural necessary conditions of 'the best chain is valid, heaviest-known and never loses work' in chain.Manager (functions are identified by role: the method calling Store.ApplyBlock is the apply step, the one calling Store.RevertBlock the revert step, the one calling both steps the tip walker): (R1) Manager.tipState is assigned only in the apply/revert steps, after the store call; (R2) every call of the tip walker other than a rollback lies on the true edge of X.SufficientlyHeavierThan(m.tipState) and targets X.Index; (R3) from the error edge of a gated walker call every path to a return passes a rollback walker call whose target was loaded from m.tipState.Index before the first call, and all those returns carry an error; (R4) Store.ApplyBlock is reached only through the success edge of consensus.ValidateBlock(m.tipState, b, *bs) for the block fetched from the store, or through the branch where the stored supplement is non-nil; (R5) Store.AddBlock with a possibly non-nil supplement occurs only after that validation of the same block, or in the documented pre-validated entry; (R6) every access to store, tipState, txpool, onReorg, onPool in Manager methods happens with Manager.mu definitely held (lockset dataflow; unexported helpers inherit the join of their call sites; returned closures start unheld); (R7) outside the apply step and the pre-validated entry, Store.AddState/AddBlock for a submitted block lie on the success edge of consensus.ValidateOrphan for that block and on the passing side of the future-timestamp test. NOT decided: consensus validity itself (core), work arithmetic, parent linkage and replay equality of the stored chain, behaviour for duplicated/orphan/mixed batches — these need execution."
+	Explanations["C01"] = "Decides structural necessary conditions of 'the best chain is valid, heaviest-known and never loses work' in chain.Manager (functions are identified by role: the method calling Store.ApplyBlock is the apply step, the one calling Store.RevertBlock the revert step, the one calling both steps the tip walker): (R1) Manager.tipState is assigned only in the apply/revert steps, after the store call; (R2) every call of the tip walker other than a rollback lies on the true edge of X.SufficientlyHeavierThan(m.tipState) and targets X.Index; (R3) from the error edge of a gated walker call every path to a return passes a rollback walker call whose target was loaded from m.tipState.Index before the first call, and all those returns carry an error; (R4) Store.ApplyBlock is reached only through the success edge of consensus.ValidateBlock(m.tipState, b, *bs) for the block fetched from the store, or through the branch where the stored supplement is non-nil; (R5) Store.AddBlock with a possibly non-nil supplement occurs only after that validation of the same block, or in the documented pre-validated entry; (R6) every access to store, tipState, txpool, onReorg, onPool in Manager methods happens with Manager.mu definitely held (lockset dataflow; unexported helpers inherit the join of their call sites; returned closures start unheld); (R7) outside the apply step and the pre-validated entry, Store.AddState/AddBlock for a submitted block lie on the success edge of consensus.ValidateOrphan for that block and on the passing side of the future-timestamp test; (R8) in the apply step Store.ApplyBlock is reached only on the side of a comparison that established block.ParentID == tipState.Index.ID. NOT decided: consensus validity itself (core), work arithmetic, parent linkage and replay equality of the stored chain, behaviour for duplicated/orphan/mixed batches — these need execution."
 
 	register(&Rule{ID: "C01.R1", Prop: "C01", Floor: 2, Doc: "tip-writer: tipState assigned only in the apply/revert steps after the store call", Run: c01r1})
 	register(&Rule{ID: "C01.R2", Prop: "C01", Floor: 2, Doc: "reorg-gate: tip walker called only on the true edge of SufficientlyHeavierThan(m.tipState) for the same state", Run: c01r2})
@@ -17,6 +17,7 @@ func init() {
 	register(&Rule{ID: "C01.R4", Prop: "C01", Floor: 1, Doc: "validate-before-best: Store.ApplyBlock only after ValidateBlock succeeded or a stored supplement exists", Run: c01r4})
 	register(&Rule{ID: "C01.R5", Prop: "C01", Floor: 3, Doc: "supplement implies validated: non-nil supplements are stored only after validation or in the pre-validated entry", Run: c01r5})
 	register(&Rule{ID: "C01.R6", Prop: "C01", Floor: 60, Doc: "lock discipline: guarded Manager fields are accessed only with Manager.mu held", Run: c01r6})
+	register(&Rule{ID: "C01.R8", Prop: "C01", Floor: 1, Doc: "parent linkage: the apply step applies only a block whose ParentID equals the tip's id", Run: c01r8})
 	register(&Rule{ID: "C01.R7", Prop: "C01", Floor: 2, Doc: "orphan gate: submitted blocks are stored only after ValidateOrphan and the future-timestamp test", Run: c01r7})
 }
 
@@ -381,5 +382,49 @@ func c01r7(c *Ctx) {
 			}
 			ob.Check(fut, nil, "%s at %s is reachable without the block having passed the future-timestamp test", ad.Fn.Name(), c.P.Pos(ad.Pos()))
 		}
+	}
+}
+
+// c01r8: the apply step only applies a block whose parent is the current tip.
+func c01r8(c *Ctx) {
+	r := getChainRoles(c.P)
+	f := r.applyTip
+	g := f.Graph()
+	c.VisitGraph(f)
+	var blk types.Object
+	for _, bc := range f.CallsTo(false, r.storeBlock) {
+		if as, ok := g.NodeContaining(bc.Pos()).AST.(*ast.AssignStmt); ok && len(as.Lhs) == 3 {
+			blk = f.ObjOf(as.Lhs[0])
+		}
+	}
+	for _, apply := range f.CallsTo(false, r.storeApply) {
+		ob := c.Ob(f, "applied-block-attaches-to-tip", apply.Pos())
+		var edges []*cfgx.Edge
+		for _, n := range g.Nodes {
+			if n.Block == nil || n.Block.Cond != n.AST || len(n.Succs) != 2 {
+				continue
+			}
+			be, ok := ast.Unparen(n.AST.(ast.Expr)).(*ast.BinaryExpr)
+			if !ok || (be.Op.String() != "!=" && be.Op.String() != "==") {
+				continue
+			}
+			isParent := func(e ast.Expr) bool { return isFieldOfObj(f, e, blk, "ParentID") }
+			isTipID := func(e ast.Expr) bool {
+				sel, ok := ast.Unparen(e).(*ast.SelectorExpr)
+				if !ok || sel.Sel.Name != "ID" {
+					return false
+				}
+				idx, ok := ast.Unparen(sel.X).(*ast.SelectorExpr)
+				return ok && idx.Sel.Name == "Index" && f.FieldOf(idx.X) == r.tipState
+			}
+			if (isParent(be.X) && isTipID(be.Y)) || (isParent(be.Y) && isTipID(be.X)) {
+				if be.Op.String() == "!=" {
+					edges = append(edges, n.Succs[1])
+				} else {
+					edges = append(edges, n.Succs[0])
+				}
+			}
+		}
+		ob.Check(blk != nil && f.OnlyVia(g.NodeContaining(apply.Pos()), edges), nil, "Store.ApplyBlock is reachable for a block whose ParentID was not compared with the current tip's id: a block that does not attach can be applied on top of the tip and the best chain stops being parent-linked")
 	}
 }
